@@ -47,6 +47,7 @@ def scenarios():
                                ckw=dict(ping_rate=0, poll=0.5, close_timeout=2.0))
     sc['via-proxy'] = dict(steps=[('raw', F(1, b't')), ('eof',)], proxy=True)
     sc['tls'] = dict(steps=[('raw', F(1, b't') + F(9, b'')), ('eof',)], url='wss://example.com/')
+    sc['wss-via-proxy'] = dict(steps=[('raw', F(1, b't') + F(9, b'') + F(2, b'b')), ('eof',)], proxy=True, url='wss://example.com/x')
     sc['connect-fail'] = dict(steps=[], gai=True)
     sc['request-write-fails'] = dict(steps=[('eof',)], faults=[['sendall', 0, 'reset']])
     sc['request-write-times-out'] = dict(steps=[('eof',)], faults=[['sendall', 0, 'timeout']])
@@ -76,7 +77,7 @@ def make(name):
                 gai_error=bool(sc.get('gai')), budget=20000,
                 faults={(f[0], f[1]): f[2] for f in sc.get('faults', ())})
     url = sc.get('url', 'ws://example.com/')
-    wskw = dict(proxies={'http': 'http://proxy.local:3128'}) if sc.get('proxy') else dict(proxies={})
+    wskw = dict(proxies={'http': 'http://proxy.local:3128', 'https': 'http://proxy.local:3128'}) if sc.get('proxy') else dict(proxies={})
     ckw = dict(sc.get('ckw') or dict(ping_rate=0))
     return w, url, wskw, ckw, H.TablePolicy(sc.get('policy'))
 
